@@ -1529,7 +1529,7 @@ reg("C07", ["Props.C07_cp_is_own_plus_distinct_descendants", "GM.C07_cp_order_in
             "Props.C07_configuration_law", "Props.C07_configuration_refused_iff", "Props.C07_configuration_idempotent",
             "Props.C07_refused_configuration_changes_nothing", "Props.C07_retry_after_refusal", "Props.C07_restricted_table_would_rank_differently"],
     run_G, ASSUME_G)
-reg("C12", ["GM.C12_closure", "Props.C12_selection_is_closure", "GM.selectNodes_none", "GM.mem_descAll_iff", "Props.C12_restriction_keeps_values", "Props.C12_alias_tag_wins", "Props.C12_alias_id", "Props.C12_alias_unknown_refused", "Props.C12_alias_list_is_union", "Props.C12_alias_list_refused_iff", "Props.C12_unselected_nodes_keep_their_value", "Props.C12_targets_only", "Props.C12_empty_lists"], run_G, ASSUME_G)
+reg("C12", ["GM.C12_closure", "Props.C12_selection_is_closure", "GM.selectNodes_none", "GM.mem_descAll_iff", "Props.C12_restriction_keeps_values", "Props.C12_alias_tag_wins", "Props.C12_alias_id", "Props.C12_alias_unknown_refused", "Props.C12_alias_list_is_union", "Props.C12_alias_list_refused_iff", "Props.C12_unselected_nodes_keep_their_value", "Props.C12_targets_only", "Props.C12_empty_lists", "Props.C12_repeated_names"], run_G, ASSUME_G)
 
 
 # ---------------------------------------------------------------------------------------------
@@ -2116,7 +2116,7 @@ def with_malformed(run, kinds):
 
 
 reg("C13", ["Props.C13_pulled_debug_has_inputs", "Props.C13_flag_off_no_debug", "Props.C13_debug_nodes_never_influence", "Props.C12_selection_is_closure",
-            "Props.C13_C11_build_rule", "Props.C13_accepted_table_debug_never_influences", "Props.C13_flag_on_runs_debug_nodes"],
+            "Props.C13_C11_build_rule", "Props.C13_accepted_table_debug_never_influences", "Props.C13_flag_on_runs_debug_nodes", "Props.C13_pulled_debug_nodes_are_a_fixpoint"],
     with_malformed(with_S(run_G), ["normal-on-debug"]), ASSUME_G)
 def nested_setup_histories():
     """A setup node inside a DAG that an outer DAG calls — plainly, or under an activation flag computed at run time — is
